@@ -74,6 +74,11 @@ for i in [true, (match En3.Va13(nil) { .Va13(m23) -> true, _ -> false })] {
 }
 """, ("out", "12347\nt\nt\n"))
 
+case("generic-identity-at-void", ["C01", "C02", "C22"],
+     "fn idt(x: T) -> T { x }\nidt(nil)\nprintln(\"a\")\nfor i in [1, 2] {\n  idt(nil)\n  println(idt(i))\n}\nprintln(idt(nil))\n", ("out", "a\n1\n2\nnil\n"))
+case("unwrap-void-payload-in-loop", ["C01", "C02", "C23"],
+     "fn ov(x: int) -> option<void> { if x == 4 { option.none } else { option.some(nil) } }\nfor i in [1, 2] {\n  ov(i)!\n  println(i)\n}\n", ("out", "1\n2\n"))
+
 # ---- open defect zone: break/continue out of an operand position -------------------------
 case("jump-from-operand-for-continue", ["C01", "C02"],
      "var acc = 0\nfor i in 4 {\n  acc = acc + { if i == 2 { continue }; i }\n}\nprintln(acc)\n", ("out", "4\n"))
